@@ -273,6 +273,15 @@ mut2("c19_abba_deadlock", "C19", [
      "            first, second = (_lock_odd, _lock_even) if self.version % 2 else (_lock_even, _lock_odd)\n            with first:\n                blank = copy_2d_array(self.modules)\n                with second:\n                    precomputed_qr_blanks[self.version] = blank\n")],
     "two locks taken in an order that depends on the version parity: ABBA deadlock between an odd and an even version on cold caches")
 
+mut("c15_tty_last_row_default_background", "C15", MAIN,
+    "                if not invert or not self.border or r < modcount + self.border - 1:\n",
+    "                if not invert or r < modcount + self.border - 1:\n",
+    "reverts the fix: tty variant at border 0 leaves the last symbol row to the terminal's default background")
+mut("c15_tty_no_background_on_two_lines", "C15", MAIN,
+    "                if not invert or not self.border or r < modcount + self.border - 1:\n",
+    "                if not invert or not self.border or r < modcount + self.border - 3:\n",
+    "black background also skipped on the second-last text line")
+
 
 # ==========================================================================
 # BENIGN refactorings: the property still holds, the checks must stay silent
